@@ -18,6 +18,7 @@ import (
 	"fmt"
 	"math/rand"
 	"runtime"
+	"runtime/debug"
 	"sync"
 
 	"verifharness/internal/evid"
@@ -46,9 +47,9 @@ func Spec() *evid.Spec {
 		},
 		MinNontrivial: 200,
 		Lanes: []evid.Lane{
-			{Name: "hist", Children: evid.Const(16, 16), Cases: evid.Const(190, 4000), TimeoutS: evid.Const(600, 3600), Run: runHistLane},
-			{Name: "crashenum", Children: evid.Const(16, 16), Cases: evid.Const(1, 19), TimeoutS: evid.Const(600, 3600), Run: runEnumLane},
-			{Name: "conc", Race: true, Children: evid.Const(16, 16), Cases: evid.Const(60, 1200), TimeoutS: evid.Const(600, 3600), Run: runConcLane},
+			{Name: "hist", Children: evid.Const(16, 16), Cases: evid.Const(190, 3000), TimeoutS: evid.Const(600, 5400), Run: runHistLane},
+			{Name: "crashenum", Children: evid.Const(16, 16), Cases: evid.Const(1, 19), TimeoutS: evid.Const(600, 5400), Run: runEnumLane},
+			{Name: "conc", Race: true, Children: evid.Const(16, 16), Cases: evid.Const(60, 800), TimeoutS: evid.Const(600, 5400), Run: runConcLane},
 		},
 	}
 }
@@ -57,7 +58,14 @@ var procsOnce sync.Once
 
 // limitProcs: a sequential lane runs 16 children side by side; leaving every child 16 Ps only makes
 // badger's goroutine hand-offs spin (measured: 45% of the CPU time in futex / work stealing).
-func limitProcs(n int) { procsOnce.Do(func() { runtime.GOMAXPROCS(n) }) }
+func limitProcs(n int) {
+	procsOnce.Do(func() {
+		runtime.GOMAXPROCS(n)
+		if n <= 2 { // sequential lanes: short-lived garbage only (JSON decoding of accounts); fewer GC cycles, RSS stays ~120 MB
+			debug.SetGCPercent(300)
+		}
+	})
+}
 
 func runHistLane(c *evid.Case) {
 	limitProcs(2)
